@@ -163,6 +163,49 @@ theorem next_commit (ix : Name) (old new : Toc) (tmp : Name) (fs0 : FS) (tr : Li
   obtain ⟨r1, r2, r3⟩ := commit ix _ new2 tmp2 fs1 tr2 hcons hcc
   exact ⟨r1, r2, r3, hclean new2 tr2 hcl⟩
 
+/-- **C02.committed_files_untouched.**  What the protocol predicates demand of in-place changes: a
+    trace that deletes the committed TOC or any file of a segment it references *before* the TOC
+    rename (e.g. a schema change that drops a removed field's column file of the existing loose segments
+    at once) is rejected, whatever comes before and after — by `SafeCommitTrace` and by
+    `SafeCancelTrace`.  (Such a delete is exactly what would make a crash, or a cancel, leave a mixture:
+    the old TOC with a segment whose file is gone, see the `example` below.) -/
+theorem committed_files_untouched (ix : Name) (old new : Toc) (tmp : Option Name) (c : Chk)
+    (hc : c.phase ≠ .post) (pre post : List Event) (n : Name)
+    (hn : n = tocName ix old.gen ∨ n ∈ old.files) (hnr : renamed pre = false) :
+    chkRun ix old new tmp c (pre ++ .delete n :: post) = none := by
+  induction pre generalizing c with
+  | nil =>
+    have : okEvent ix old new tmp c (.delete n) = none := by
+      simp only [okEvent]
+      cases hp : c.phase with
+      | post => exact absurd hp hc
+      | pre => rcases hn with h | h <;> simp [h]
+      | tmpOpen => rcases hn with h | h <;> simp [h]
+      | tmpClosed => rcases hn with h | h <;> simp [h]
+    simp [chkRun, chkStep, this]
+  | cons e es ih =>
+    simp only [List.cons_append, chkRun]
+    cases hs : chkStep ix old new tmp c e with
+    | none => rfl
+    | some c1 =>
+      simp only
+      have hes : renamed es = false ∧ ¬ ∃ a b, e = Event.rename a b := by
+        cases e <;> simp_all [renamed]
+      apply ih c1 _ hes.1
+      intro h1
+      rcases (chkStep_phase hs).1 h1 with h | h
+      · exact hc h
+      · exact hes.2 h
+
+theorem committed_files_untouched_commit (ix : Name) (old new : Toc) (tmp : Name) (fs0 : FS)
+    (pre post : List Event) (n : Name) (hn : n = tocName ix old.gen ∨ n ∈ old.files)
+    (hnr : renamed pre = false) :
+    SafeCommitTrace ix old new tmp fs0 (pre ++ .delete n :: post) = false ∧
+    SafeCancelTrace ix old fs0 (pre ++ .delete n :: post) = false := by
+  simp [SafeCommitTrace, SafeCancelTrace,
+    committed_files_untouched ix old new (some tmp) ⟨fs0, .pre⟩ (by simp) pre post n hn hnr,
+    committed_files_untouched ix old old none ⟨fs0, .pre⟩ (by simp) pre post n hn hnr]
+
 /-- **C02.pattern.**  The temp name `"%s.%s" % (tocfilename, time())` is never matched by the TOC
     pattern (whatever follows the dot), while the final name is, with its own generation; the lock
     file and the temp-storage directory are never matched by the segment pattern. -/
@@ -384,6 +427,19 @@ example : segFile ∈ cleanFiles ix 1 tocNew2.sids fsCrashed.listing :=
 
 /-- without the clean-up pass the predicate says no (and the orphan would stay) -/
 example : CleansOrphans ix tocNew2 fsCrashed (tr2.take 9) = false := by decide
+
+/-! `committed_files_untouched` on a concrete instance: after the commit above, a writer that deletes the
+    committed segment file before publishing anything is rejected (as a commit prefix and as a cancel),
+    and a crash right after that delete really leaves a mixture — the TOC read back is the committed
+    one, but it is not readable any more. -/
+def fs1 : FS := run fs0 tr
+example : SafeCancelTrace ix tocNew fs1 [.other, .delete segFile] = false :=
+  (committed_files_untouched_commit ix tocNew tocNew tmpN fs1 [.other] [] segFile
+    (Or.inr (by decide)) (by decide)).2
+example : SafeCancelTrace ix tocNew fs1 [.other, .delete segFile] = false := by decide
+example : readToc ix (crash (run fs1 [.other, .delete segFile]) fun _ => 0) = .ok tocNew ∧
+    readable (crash (run fs1 [.other, .delete segFile]) fun _ => 0) tocNew = false ∧
+    readable (crash (run fs1 [.other]) fun _ => 0) tocNew = true := ⟨by rfl, by decide, by decide⟩
 
 end Example
 
